@@ -121,6 +121,8 @@ func c15CheckBytes(r *mc.Report, in []byte) {
 	}
 }
 
+var c15Held [2][]byte
+
 func c15CheckList(r *mc.Report, items [][]byte, desc []string) {
 	c := c15Case{Kind: "list", Items: desc}
 	var enc []byte
@@ -141,6 +143,12 @@ func c15CheckList(r *mc.Report, items [][]byte, desc []string) {
 		r.Violation("split-inverts-join", "decodeContents", fmt.Sprintf("list %v: decode(encode(xs)) != xs (err=%v, %d items back)", desc, gerr, len(got)), c)
 		return
 	}
+	// the stream joined for the previous list is still held by its caller (a transfer takes up to
+	// 75 s): the join just made must not have changed it
+	if c15Held[0] != nil && !bytes.Equal(c15Held[0], c15Held[1]) {
+		r.Violation("split-inverts-join", "encodeContents:stream-changed-by-a-later-join", fmt.Sprintf("the %d-byte stream joined for the previous list changed when list %v was joined", len(c15Held[1]), desc), c)
+	}
+	c15Held = [2][]byte{enc, append([]byte{}, enc...)}
 	r.Exec(fmt.Sprintf("list:%v", desc))
 }
 
@@ -300,10 +308,19 @@ func runC15(r *mc.Report, e *Env) {
 			}
 		}
 	}
-	// round trip of the single-item encoder
+	// round trip of the single-item encoder; also for items that are themselves well-formed
+	// frames (their own first bytes read as the length of the rest) and frames of frames
+	bodies := [][]byte{}
 	for _, n := range lens {
+		bodies = append(bodies, mk(n, 0x85))
+	}
+	for _, n := range []int{0, 1, 127, 128, 1300, 16384, 16387} {
+		f1 := refJoin([][]byte{mk(n, 0x09)})
+		bodies = append(bodies, f1, refJoin([][]byte{f1}), refJoin([][]byte{mk(n, 0x09), {}}))
+	}
+	for _, body := range bodies {
+		n := len(body)
 		node, peer := c15UtpFixture(1)
-		body := mk(n, 0x85)
 		enc, err := node.P.VerifEncodeUtpContent(peer, body)
 		if err != nil {
 			r.Violation("single-item-roundtrip", "encodeUtpContent", err.Error(), c15Case{Kind: "utp", Ver: 1})
